@@ -161,13 +161,18 @@ Definition explain_retry (c : retry_case) := retry_model c.
 (** ** group "pool": ServerPool.handle through Proxy.Handle, pkg/filters/proxy *)
 Record pool_req := {
   q_stream : bool;
-  q_script : list (Z * Z);  (* per attempt (kind, code): 0 status | 1 error | 2 block | 3 panic *)
+  q_script : list (Z * Z);  (* per attempt (kind, code): 0 status | 1 error | 2 block | 3 panic |
+                               4 body breaks | 5 body stalls until ctx done | 6 body too large *)
   q_cancel : Z;
+  q_clen   : Z;             (* request body: 0 declared length, 1 unknown length (chunked) *)
   (* observed *)
   q_calls  : Z;             (* transport calls *)
   q_res    : Z;             (* result string: 0 "" 1 serverError 2 timeout 3 clientError 4 failureCode
                                5 internalError 6 shortCircuited 7 panic 8 hang (watchdog) 9 other *)
   q_status : Z;             (* status code of the response left in the context (0 after a panic) *)
+  q_from   : Z;             (* attempt whose backend response the client gets; -1 none / gateway-made *)
+  q_plen   : Z;             (* payload size of the response the client gets *)
+  q_bodies : Z;             (* attempts that received the complete request body *)
   q_gaps   : list Z
 }.
 
@@ -187,6 +192,9 @@ Definition tscript_of (s : list (Z * Z)) (i : nat) : tscript :=
   | Some (0, c) => SStatus c
   | Some (2, _) => SBlock
   | Some (3, _) => SPanic
+  | Some (4, _) => SBodyErr
+  | Some (5, _) => SBodyBlock
+  | Some (6, _) => SBodyErr
   | _ => SErr
   end.
 
@@ -201,6 +209,13 @@ Definition presult_code (r : presult) : Z * Z :=
   | PResult r s => (res_code r, s)
   | PPanic => (7, 0)
   | PHang => (8, 0)
+  end.
+
+(** (from, payload size): the scripted backend answers a 2-byte payload *)
+Definition visible_code (v : visible) : Z * Z :=
+  match v with
+  | VBackend j => (Z.of_nat j, 2)
+  | VGateway _ | VNothing => (-1, 0)
   end.
 
 Definition pool_of (c : pool_case) : pool :=
@@ -221,13 +236,17 @@ Definition pool_model (c : pool_case) :=
   let pl := pool_of c in
   let outs := map (fun q => (pool_handle pl true (request_of q),
                              waits_of (handler_trace pl (request_of q)))) (k_reqs c) in
-  (map (fun '(o, w) => (Z.of_nat (po_attempts o), presult_code (po_result o), w)) outs,
+  (map (fun '(o, w) => (Z.of_nat (po_attempts o), presult_code (po_result o), w,
+                        visible_code (po_visible o))) outs,
    if k_cb c then (Z.of_nat (total_records (map fst outs)), Z.of_nat (failed_records (map fst outs)))
    else (-1, -1)).
 
-Definition corr_req (q : pool_req) (m : Z * (Z * Z) * list Z) : bool :=
-  let '(calls, rs, waits) := m in
+Definition corr_req (q : pool_req) (m : Z * (Z * Z) * list Z * (Z * Z)) : bool :=
+  let '(calls, rs, waits, vis) := m in
   (calls =? q_calls q) && Zeqb_pair rs (q_res q, q_status q) &&
+  (* every attempt of the model receives the complete request body *)
+  (q_bodies q =? calls) &&
+  (if q_res q <? 7 then Zeqb_pair vis (q_from q, q_plen q) else true) &&
   (Z.of_nat (List.length (q_gaps q)) =? Z.max 0 (q_calls q - 1)) &&
   (List.length (q_gaps q) <=? List.length waits)%nat &&
   ge_prefix (q_gaps q) waits.
@@ -264,6 +283,8 @@ Definition expect_last (c : pool_case) (q : pool_req) (i : Z) : Z * Z :=
   let cancelled := (0 <=? q_cancel q) && (q_cancel q <=? i) in
   if k =? 0 then (if zmem code (k_fcodes c) then (4, code) else (0, code))
   else if k =? 3 then (7, 0)
+  else if (k =? 4) || (k =? 6) then (5, 500)
+  else if k =? 5 then (if cancelled || (0 <? k_timeout c) then (5, 500) else (8, 0))
   else if cancelled then (3, 499)
   else if k =? 2 then (if 0 <? k_timeout c then (2, 408) else (8, 0))
   else (1, 503).
@@ -278,6 +299,13 @@ Definition prop_req (c : pool_case) (q : pool_req) : bool :=
    then n <=? q_cancel q + 1 else true) &&
   Zeqb_pair (expect_last c q (n - 1)) (q_res q, q_status q) &&
   negb (q_res q =? 8) &&
+  (* the response the client gets: with the empty result or failureCode the backend response of
+     the LAST attempt; with any other failure result the gateway's own failure response (no
+     backend header, no payload) - never a backend response whose body could not be fetched *)
+  (if (q_res q =? 0) || (q_res q =? 4) then (q_from q =? n - 1) && (q_plen q =? 2)
+   else if q_res q <? 7 then (q_from q =? -1) && (q_plen q =? 0) else true) &&
+  (* the request body is never re-sent incompletely: every attempt got all of it *)
+  (q_bodies q =? n) &&
   (Z.of_nat (List.length (q_gaps q)) =? n - 1) &&
   ge_prefix (q_gaps q) (lows p (Z.to_nat (n - 1))).
 
@@ -302,7 +330,10 @@ Definition class_pool (c : pool_case) : N :=
     let b6 := existsb (fun q => q_res q =? 4) (k_reqs c) in
     let b7 := existsb (fun q => (q_res q =? 0) && (1 <? q_calls q)) (k_reqs c) in
     let b8 := existsb (fun q => q_res q =? 7) (k_reqs c) in
-    (1 + bN b1 1 + bN b2 2 + bN b3 4 + bN b4 8 + bN b5 16 + bN b6 32 + bN b7 64 + bN b8 128)%N
+    let b9 := existsb (fun q => q_res q =? 5) (k_reqs c) in
+    let b10 := existsb (fun q => q_stream q && (q_clen q =? 1)) (k_reqs c) in
+    (1 + bN b1 1 + bN b2 2 + bN b3 4 + bN b4 8 + bN b5 16 + bN b6 32 + bN b7 64 + bN b8 128
+       + bN b9 256 + bN b10 512)%N
   end.
 
 (** the case the MODEL itself would produce for a pool configuration and a list of client
@@ -313,9 +344,11 @@ Definition model_pool_req (pl : pool) (x : bool * list (Z * Z) * Z * (nat -> Z) 
                rq_draws := draws; rq_pick := pick |} in
   let out := pool_handle pl true rq in
   let n := po_attempts out in
-  {| q_stream := stream; q_script := script; q_cancel := cancel;
+  {| q_stream := stream; q_script := script; q_cancel := cancel; q_clen := 0;
      q_calls := Z.of_nat n;
      q_res := fst (presult_code (po_result out)); q_status := snd (presult_code (po_result out));
+     q_from := fst (visible_code (po_visible out)); q_plen := snd (visible_code (po_visible out));
+     q_bodies := Z.of_nat n;
      q_gaps := firstn (n - 1) (waits_of (handler_trace pl rq)) |}.
 
 Definition model_pool_rq (x : bool * list (Z * Z) * Z * (nat -> Z) * (nat -> bool)) : request :=
